@@ -26,7 +26,9 @@ class C04(Prop):
                    'script code shorter than 2^64 bytes']
     rule = ('sampled transactions (1..4 inputs, 0..4 outputs, +-witness, both classes) with nLockTime / nSequence at '
             '{0, 2^31-1, 2^31, 2^32-1} and random x script codes of length {0, 0xfc, 0xfd, 300, small, mined} x amounts '
-            '{0, 1, 2^63-1, random} x every valid index x ALL 256 hash-type bytes; hash types outside one byte / '
+            '{0, 1, 2^63-1, random} x every valid index x ALL 256 hash-type bytes; every standard template shape (P2WPKH/'
+            'P2WSH/v1..16 programs, P2PKH, P2SH, P2PK, multisig, nulldata, P2WPKH script code +- length prefix, empty, '
+            'single opcodes) and its +-1-byte neighbours as script code; hash types outside one byte / '
             'negative / outside int32; every case also observes that the transaction object is unchanged; a subset '
             'is re-evaluated under Spec; histories: one live object hashed, edited in place, hashed again, witness-v0 and '
             'legacy interleaved on the same object')
@@ -84,6 +86,21 @@ class C04(Prop):
         # (H) histories: ONE live object hashed, edited in place, hashed again (stale memoisation / aliasing)
         for _ in range(max(1, (4800 if big else 320) // nshards)):
             yield mk('c04.hist', *H.gen_history(rng, G, self.pool, 'v0', big), tag='history')
+        # (T) every standard template shape (and its +-1-byte neighbours) as script code; shard-independent list,
+        #     partitioned by index
+        import random as _random
+        crng = _random.Random('%s:%s:%s:common' % (getattr(self, 'seed', 0), self.id, tier))
+        for j, sc in enumerate(G.template_scripts(crng)):
+            if j % nshards != shard:
+                continue
+            t = self.gen_tx(rng, j, nin=rng.randrange(1, 4), nout=rng.randrange(0, 4))
+            text = txfmt.show_tx(t)
+            for idx in range(len(t['vin'])):
+                cls = rng.choice('im')
+                amount = rng.choice((0, 1, I64MAX, rng.randrange(1 << 63)))
+                for ht in G.HT_STANDARD + (0, rng.randrange(256)):
+                    yield mk('c04.bip143', cls, sc.hex(), text, idx, ht, amount, tag='template')
+                yield mk('c04.spec.bip143', cls, sc.hex(), text, idx, rng.choice(G.HT_STANDARD), amount, tag='template-spec')
         n = 0
         for t in txs:
             text = txfmt.show_tx(t)
